@@ -754,20 +754,24 @@ func TestPropUnpackWide(t *testing.T) {
 			}
 			c.Params = append(c.Params, p)
 		}
-		kind := rapid.SampledFrom([]string{"right", "right", "right", "right", "right", "right", "wrong", "none"})
 		npos := vk.Uniform(t, n+2)
 		if vk.Chance(t, 0.5) {
 			npos = firstOpt
 		}
 		for i := 0; i < npos; i++ {
-			c.Pos = append(c.Pos, UArg{Kind: kind.Draw(t, "kind")})
+			c.Pos = append(c.Pos, UArg{Kind: "right"})
+		}
+		// at most one positional argument of the wrong type or None, so that most calls are decided by the
+		// bookkeeping of bound parameters and not by a type error
+		if npos > 0 && vk.Chance(t, 0.3) {
+			c.Pos[vk.Uniform(t, npos)].Kind = []string{"wrong", "none"}[vk.Uniform(t, 2)]
 		}
 		for i := 0; i < vk.Uniform(t, 4); i++ {
 			name := "z"
 			if vk.Chance(t, 0.9) {
 				name = uNames[vk.Uniform(t, n)]
 			}
-			c.Kw = append(c.Kw, UArg{Name: name, Kind: kind.Draw(t, "kwkind")})
+			c.Kw = append(c.Kw, UArg{Name: name, Kind: []string{"right", "right", "right", "wrong", "none"}[vk.Uniform(t, 5)]})
 		}
 		return c
 	})
